@@ -70,12 +70,24 @@ class JobResult:
     suppress: str = ""
 
 
+_FUNC_CACHE = {}
+
+
 def _func_line(module, func):
-    mod = importlib.import_module(module)
-    fn = getattr(mod, func)
-    src, line = inspect.getsourcelines(fn)
-    # first line inside the def
-    return inspect.getsourcefile(fn), line + 1, fn
+    """(file, first body line, parameter names) of a harness function - from the source text (the runner process never imports
+    harness modules: they pull in the repository and are imported by the job subprocesses only)."""
+    key = (module, func)
+    if key not in _FUNC_CACHE:
+        file = os.path.join(VERIF, *module.split(".")) + ".py"
+        with open(file, encoding="utf-8") as f:
+            tree = ast.parse(f.read())
+        for node in tree.body:
+            if isinstance(node, ast.FunctionDef) and node.name == func:
+                _FUNC_CACHE[key] = (file, node.lineno + 1, [a.arg for a in node.args.args])
+                break
+        else:
+            raise KeyError(f"{module}.{func} not found")
+    return _FUNC_CACHE[key]
 
 
 def _base_env(cube, seed, mode, extra=None):
@@ -96,11 +108,10 @@ def _base_env(cube, seed, mode, extra=None):
 _CALL_RE = re.compile(r"error: (?P<msg>.*?) ?when calling (?P<call>\w+\(.*\))(?: \(which returns (?P<ret>.*)\))?\s*$")
 
 
-def parse_call(call_src, fn):
+def parse_call(call_src, params):
     """'h(1, True, x='a')' -> {param: value}"""
     node = ast.parse(call_src, mode="eval").body
     assert isinstance(node, ast.Call)
-    params = list(inspect.signature(fn).parameters)
     out = {}
     for i, a in enumerate(node.args):
         out[params[i]] = ast.literal_eval(a)
